@@ -220,8 +220,18 @@ FALSE = Conc(0)
 # ---------------------------------------------------------------------------------------------
 # state
 # ---------------------------------------------------------------------------------------------
+class CallThen:
+    """Result of a summary that needs to call back into interpreted code: call instance `iid` with `args`; when it
+    returns, `then(interp, state, return value)` yields the value of the summarised call or another CallThen."""
+
+    def __init__(self, iid, args, then):
+        self.iid = iid
+        self.args = args
+        self.then = then
+
+
 class Frame:
-    __slots__ = ("inst", "locals", "bb", "si", "dest", "target", "uid")
+    __slots__ = ("inst", "locals", "bb", "si", "dest", "target", "uid", "then")
 
     def __init__(self, inst, uid):
         self.inst = inst
@@ -231,6 +241,7 @@ class Frame:
         self.dest = None  # Ref into the caller where the return value goes
         self.target = None  # caller bb to continue at
         self.uid = uid
+        self.then = None  # continuation of a summary that called this frame (CallThen)
 
     def copy(self):
         f = Frame(self.inst, self.uid)
@@ -239,6 +250,7 @@ class Frame:
         f.si = self.si
         f.dest = self.dest
         f.target = self.target
+        f.then = self.then
         return f
 
 
@@ -1390,6 +1402,13 @@ class Interp:
     def do_return(self, st, f):
         rv = f.locals.get(0, UNIT)
         st.frames.pop()
+        if f.then is not None:
+            r = f.then(self, st, rv)
+            if isinstance(r, CallThen):
+                nf = self.push_frame(st, r.iid, r.args, f.dest, f.target)
+                nf.then = r.then
+                return None
+            return self.finish_summary(st, st.frames[-1], r, f.dest, f.target)
         if not st.frames:
             st.outcome = ("return", rv)
             return [st]
@@ -1573,6 +1592,10 @@ class Interp:
                 r = fn(self, st, inst, args, {"dest": dest, "target": target, "term": t, "frame": f})
                 if r is NotImplemented:
                     continue
+                if isinstance(r, CallThen):
+                    nf = self.push_frame(st, r.iid, r.args, dest, target)
+                    nf.then = r.then
+                    return None
                 return self.finish_summary(st, f, r, dest, target)
         if "ctor" in inst:
             return self.finish_summary(st, f, Agg(inst["ctor"]["ty"], inst["ctor"]["variant"], args), dest, target)
